@@ -15,6 +15,7 @@
 //! iterator equals an identically-built, identically-driven twin, and equal iterators hash equally
 //! (the `Hash`/`Eq` contract). The output format of `{:?}` and the hash value are not constrained.
 
+pub mod adapters;
 pub mod ledger;
 pub mod shapes;
 
@@ -140,6 +141,10 @@ struct Guard<I>(std::mem::ManuallyDrop<I>);
 impl<I> Guard<I> {
     fn new(i: I) -> Self {
         Guard(std::mem::ManuallyDrop::new(i))
+    }
+    fn into_inner(self) -> I {
+        let mut me = std::mem::ManuallyDrop::new(self);
+        unsafe { std::mem::ManuallyDrop::take(&mut me.0) }
     }
     fn finish(self) -> Result<(), String> {
         let mut me = std::mem::ManuallyDrop::new(self);
@@ -1034,6 +1039,53 @@ pub fn property() -> Property {
     per_vec!(Rgba, 4, "intoiter-table-rgba", "intoiter-random-rgba", "conv-rgba", "views-rgba");
     per_vec!(Uv, 2, "intoiter-table-uv", "intoiter-random-uv", "conv-uv", "views-uv");
     per_vec!(Uvw, 3, "intoiter-table-uvw", "intoiter-random-uvw", "conv-uvw", "views-uvw");
+    // regimes beyond {next, next_back, len, size_hint, observers, drop}: the whole iterator surface and pairs of iterators
+    const EXT_RANDOM_QUICK: u64 = 1_500; // x 13 types
+    const EXT_RANDOM_THOROUGH: u64 = 60_000;
+    macro_rules! per_vec_ext {
+        ($V:ident, $n:expr, $sfx:literal, $single_q:expr, $pobs_q:expr, $pops_q:expr) => {{
+            let total = adapters::single_total($n);
+            let q: u64 = $single_q;
+            checks.push(Check {
+                name: concat!("adapters-table-", $sfx),
+                about: "every cursor state (start,end) x every single-operand Iterator/DoubleEndedIterator/ExactSizeIterator method and std adapter (nth, nth_back, find, position, any/all, try_fold, skip, step_by, take, rev, take_while, skip_while, map_while, filter, peekable, enumerate, fuse, map, last, count, max/min, collect, sum, partition, extend, the vector's FromIterator; through by_ref() with the history going on, and BY VALUE: fold, rfold, for_each, last, count, collect, reduce, is_sorted, ..) x argument class (0, 1, rem/2, rem-1, rem, rem+1, rem+7, usize::MAX): results, hand-out order and remaining length equal the std defaults run over a deque model; the ownership ledger balances after every operation (live / yielded once / dropped once) and at the end",
+                kind: Kind::Index { total, quick: q.min(total), thorough: (q.saturating_mul(40)).min(total), f: adapters::single_case::<$V<Tracked>, $n> },
+            });
+            let total = adapters::pair_obs_total($n);
+            let q: u64 = $pobs_q;
+            checks.push(Check {
+                name: concat!("pairs-observers-", $sfx),
+                about: "==, != (both operand orders) and hash on PAIRS of consuming iterators in independently chosen cursor states (all state pairs for the small dimensions) x 4 content modes (value-shifted so that equal remaining sequences sit at different cursor positions, identical, aligned with one live element different, constant): == iff the remaining value sequences are equal, equal => equal hashes, no read of a yielded element (ledger), both iterators keep working afterwards",
+                kind: Kind::Index { total, quick: q.min(total), thorough: (q.saturating_mul(40)).min(total), f: adapters::pair_obs_case::<$V<Tracked>, $n> },
+            });
+            let total = adapters::pair_ops_total($n);
+            let q: u64 = $pops_q;
+            checks.push(Check {
+                name: concat!("pairs-adapters-", $sfx),
+                about: "two-operand operations on PAIRS of consuming iterators in independently chosen cursor states: zip, chain, flatten (by_ref and by value; nth/next_back/rev/count/last/take with arguments around either and both remaining lengths), Iterator::{eq,ne,cmp,partial_cmp,lt,ge}, mem::swap; same model + ledger oracle as adapters-table",
+                kind: Kind::Index { total, quick: q.min(total), thorough: (q.saturating_mul(40)).min(total), f: adapters::pair_ops_case::<$V<Tracked>, $n> },
+            });
+            checks.push(Check {
+                name: concat!("adapters-random-", $sfx),
+                about: "random histories (<= 10 operations + a by-value consumer) over the whole alphabet (pulls, every partial operation with tape-chosen argument classes, observers incl. pair ==/hash, swap, FromIterator) on two iterators that start in independent tape-chosen cursor states and are driven independently; same oracle",
+                kind: Kind::Tape { len: adapters::EXT_RANDOM_TAPE_LEN, quick: EXT_RANDOM_QUICK, thorough: EXT_RANDOM_THOROUGH, f: adapters::ext_random_case::<$V<Tracked>, $n> },
+            });
+        }};
+    }
+    const ALL: u64 = u64::MAX;
+    per_vec_ext!(Vec2, 2, "vec2", ALL, ALL, ALL);
+    per_vec_ext!(Vec3, 3, "vec3", ALL, ALL, ALL);
+    per_vec_ext!(Vec4, 4, "vec4", ALL, ALL, ALL);
+    per_vec_ext!(Vec8, 8, "vec8", ALL, ALL, 15_000);
+    per_vec_ext!(Vec16, 16, "vec16", ALL, 20_000, 10_000);
+    per_vec_ext!(Vec32, 32, "vec32", 15_000, 10_000, 6_000);
+    per_vec_ext!(Vec64, 64, "vec64", 10_000, 6_000, 4_000);
+    per_vec_ext!(Extent2, 2, "extent2", ALL, ALL, ALL);
+    per_vec_ext!(Extent3, 3, "extent3", ALL, ALL, ALL);
+    per_vec_ext!(Rgb, 3, "rgb", ALL, ALL, ALL);
+    per_vec_ext!(Rgba, 4, "rgba", ALL, ALL, ALL);
+    per_vec_ext!(Uv, 2, "uv", ALL, ALL, ALL);
+    per_vec_ext!(Uvw, 3, "uvw", ALL, ALL, ALL);
     macro_rules! per_mat {
         ($M:ty, $n:expr, $nn:expr, $conv:expr, $view:expr) => {{
             checks.push(Check {
